@@ -75,6 +75,10 @@ CHECKS = {
    "a third of the matrix cells (half, thorough) + random schemas + a tagged schema generated under a pairwise covering array of the 5 options (all 32, thorough); per (type, option set): all encoders must emit the independent reference bytes - hence identical bytes under every option set - and every decoder entry point, including the Must variants where generated, must map the reference encoding and its map permutations to the value; thorough adds an -asan pass with exactly sized buffers (shared-memory strings)",
    "held on ~6e4 (type, option set, value) triples per quick run; pairwise coverage of options in quick, full 2^5 in thorough",
    "runtime monitoring: differential oracle against the reference codec across generator configurations (+ AddressSanitizer build in thorough)"),
+ "C14": ("exploration",
+   "three on-disk schema trees (single large file; imports in combined mode; imports over distinct go_packages in separate mode) are parsed once in a -race build; ReadFile, Validate, Format and Generate under 6 option sets run 5x sequentially and from 8 goroutines x 20 repetitions on the one shared File, in 3 fresh processes; outputs must be byte-identical within and across processes, the File deep-unchanged, and the race logs empty; overlapping call pairs are counted (9e4 per quick run)",
+   "held on the schedules the Go scheduler produced; the race detector is happens-before based, so it reports races between accesses that were executed regardless of timing, not races on paths the workload never ran",
+   "runtime monitoring: Go race detector + repeatability/purity oracle over sequential, concurrent and cross-process repetitions"),
 }
 DESIGN = {i: "DESIGN.md section 4, %s" % i for i in CHECKS}
 
